@@ -12,6 +12,7 @@ C08's theorems.
 import Tough.Model.Cache
 import Tough.Proofs.ClientCongr
 import Tough.Proofs.ClientReqs
+import Tough.Proofs.PublishCycle
 import Tough.Proofs.ExceptDec
 namespace Tough.C19
 open Tough.Sig Tough.Client Tough.Cache
@@ -215,5 +216,72 @@ example : ∃ v, (cycle cfgE srvE (some root1E) ⟨{}, []⟩).1 = .ok v ∧
     (metaFiles v true).all (copyable srvE) = true ∧ srvE.get (.rootV (v.root.version + 1)) = .notFound ∧
     (metaFiles v true).length = 6 ∧ tgtRoleNames v.tgt = [9] :=
   ⟨_, rfl, by decide, by decide, by decide, by decide⟩
+
+end Tough.C19
+
+namespace Tough.C19
+open Tough.Sig Tough.Client Tough.Cache Tough.Publish
+
+/-! ### Composition with C10: a copy of what the editor published loads like the original -/
+
+theorem server_get_later_root (ser : Ser) (p : Signed) (k : Nat) (hk : p.root.version < k) :
+    (p.server ser).get (.rootV k) = .notFound := by
+  unfold Server.get
+  rw [lookup_none_of_not_mem]
+  simp only [Signed.server, List.map_cons, List.map_map, List.cons_append, List.nil_append,
+    List.mem_cons, List.mem_map, Function.comp]
+  rintro (h | h | h | h | ⟨q, _, h⟩)
+  · simp only [FileName.rootV.injEq] at h; omega
+  · cases h
+  · cases h
+  · cases h
+  · simp [nodeFile] at h
+
+/-- **C10 ∘ C19.** The editor signs and writes a repository (`Signed.server`, hypotheses of
+`cycle_pub` = what `sign` guarantees); a client with the same root loads it (view = exactly what was
+signed); `cache` copies the metadata without the root chain.  Then a client holding that root loads the
+COPY with the same result: the same root, timestamp, snapshot and delegation tree the editor signed. -/
+theorem copy_of_published_repository_loads (cfg : Config) (ser : Ser) (p : Signed) (ds : Datastore)
+    (hroot : rootVerify p.root .root p.root.msg p.root.sigs = true)
+    (hts : rootVerify p.root .timestamp p.tsMsg p.tsSigs = true)
+    (hsn : rootVerify p.root .snapshot p.snapMsg p.snapSigs = true)
+    (htg : rootVerify p.root .targets (Tgt.doc p.tree).msg (Tgt.doc p.tree).sigs = true)
+    (htree : TgtOk p.tree) (hn : (tgtRoleNames p.tree).Nodup) (hvalid : p.tree.validate = true)
+    (hupd : 0 < cfg.limits.maxRootUpdates)
+    (hsize : ser.len (.timestamp (p.timestamp ser)) ≤ cfg.limits.maxTimestampSize)
+    (hexp : cfg.safe = true → cfg.now ≤ p.root.expires ∧ cfg.now ≤ p.tsExpires ∧ cfg.now ≤ p.snapExpires ∧
+      cfg.now ≤ (Tgt.doc p.tree).expires)
+    (hfresh : ds.ts = .absent ∧ ds.snap = .absent ∧ ds.tgt = .absent)
+    (hclock : cfg.safe = true → ∀ t0, ds.time = some t0 → t0 ≤ cfg.now) :
+    ∃ st', cycle cfg (cachedServer (p.server ser) (metaFiles ⟨p.root, p.timestamp ser, p.snapshot ser, p.tree⟩ false))
+        (some p.root) ⟨ds, []⟩ = (.ok ⟨p.root, p.timestamp ser, p.snapshot ser, p.tree⟩, st') := by
+  obtain ⟨st', hpub⟩ := cycle_pub (cfg := cfg) ser p ds hroot hts hsn htg htree hn hvalid hupd hsize hexp hfresh hclock
+  have hview : (cycle cfg (p.server ser) (some p.root) ⟨ds, []⟩).1 = .ok ⟨p.root, p.timestamp ser, p.snapshot ser, p.tree⟩ := by
+    rw [hpub]
+  have hcopy := copy_without_chain_loads_alike cfg (p.server ser) p.root ds _ hview
+    (by
+      intro f hf
+      simp only [metaFiles, Bool.false_eq_true, ↓reduceIte, List.append_nil, List.mem_append, List.mem_cons,
+        List.mem_filterMap, List.not_mem_nil, or_false] at hf
+      unfold copyable
+      rcases hf with (rfl | rfl | rfl) | ⟨r, hr, hrf⟩
+      · have : (p.snapshot ser).version = p.snapVersion := rfl
+        rw [this, server_get_snapshot ser p hn]; rfl
+      · rw [server_get_targets ser p hn]; rfl
+      · rw [server_get_timestamp ser p hn]; rfl
+      · -- a delegated role of the tree: its file was written under the name `cache` computes
+        rw [tgtRoleNames_nodes] at hr
+        obtain ⟨q, hq, rfl⟩ := List.mem_map.mp hr
+        have hfind := snapshot_find_role ser p hn q hq
+        have : roleFile ⟨p.root, p.timestamp ser, p.snapshot ser, p.tree⟩ q.1.name =
+            some (.role q.1.name (versioned p.root.consistent (Tgt.doc q.2).version)) := by
+          have := roleFile_of_listed ⟨p.root, p.timestamp ser, p.snapshot ser, p.tree⟩ q.1.name _ hfind
+          simpa [metaOf] using this
+        rw [this] at hrf
+        simp only [Option.some.injEq] at hrf
+        subst hrf
+        rw [server_get_role ser p hn q hq]; rfl)
+    (fun k hk => server_get_later_root ser p k hk)
+  exact ⟨st', by rw [hcopy, hpub]⟩
 
 end Tough.C19
